@@ -13,7 +13,8 @@ The code is modelled AS IT IS, including:
 * the PONG / CLOSE reply carries `payload` as the LAST call saw it: only `[chunk_startindex, readindex)` of it
   has been unmasked (matters for masked control frames only, which a server must not send);
 * `_send_impl` ignores its argument while `_sendbuffer` is non-empty and returns the size remembered from the
-  call that created the frame.
+  call that created the frame; an exception of the raw `socket.send` propagates with the (possibly just created)
+  frame left in `_sendbuffer`.
 
 The raw socket is the queue of `RecvItem`s of Paho.Model.Reader (`recvN`): `eof` makes `recv` return b''
 (`_buffered_read` raises ConnectionAbortedError), `err` is a ConnectionResetError (the fake transport raises that);
@@ -173,15 +174,35 @@ structure SendSt where
   requestedSize : Nat := 0
   deriving DecidableEq, Repr
 
-/-- `_send_impl(data)`; `accept` = what `socket.send` takes (at most the buffer). Returns the new state, the
-bytes that went to the raw socket and the return value. -/
-def sendImpl (st : SendSt) (data : Bytes) (maskKey : Bytes) (accept : Nat) : SendSt × Bytes × Nat :=
+/-- what the raw `self._socket.send(self._sendbuffer)` does: takes `k` bytes (at most the buffer), or raises
+BlockingIOError (full non-blocking socket), or raises another OSError (EPIPE: the fake transport raises BrokenPipeError) -/
+inductive SockSend where
+  | accept (k : Nat)
+  | wouldBlock
+  | error
+  deriving DecidableEq, Repr
+
+/-- how `_send_impl` ends: `return n`, or the socket's exception propagates (`blocking`: it is a BlockingIOError) -/
+inductive SendRes where
+  | ret (n : Nat)
+  | raised (blocking : Bool)
+  deriving DecidableEq, Repr
+
+/-- `_send_impl(data)`. Returns the new state, the bytes that went to the raw socket and the outcome.
+When `socket.send` raises, the exception leaves `_send_impl` as it is: nothing is caught, so `_sendbuffer` and
+`_requested_size` keep the values they have at that point — in particular, when the buffer was empty on entry the new
+frame HAS been created and stored before the failing send, and the retry continues with that frame (and its mask key). -/
+def sendImpl (st : SendSt) (data : Bytes) (maskKey : Bytes) (out : SockSend) : SendSt × Bytes × SendRes :=
   let st : SendSt :=
     if st.sendbuffer.length = 0 then
       { sendbuffer := st.sendbuffer ++ createFrame 2 data maskKey 1, requestedSize := data.length }
     else st
-  let n := min accept st.sendbuffer.length
-  let st' : SendSt := { st with sendbuffer := st.sendbuffer.drop n }
-  (st', st.sendbuffer.take n, if st'.sendbuffer.length = 0 then st'.requestedSize else 0)
+  match out with
+  | .wouldBlock => (st, [], .raised true)
+  | .error => (st, [], .raised false)
+  | .accept accept =>
+    let n := min accept st.sendbuffer.length
+    let st' : SendSt := { st with sendbuffer := st.sendbuffer.drop n }
+    (st', st.sendbuffer.take n, .ret (if st'.sendbuffer.length = 0 then st'.requestedSize else 0))
 
 end Paho.Ws
